@@ -156,6 +156,8 @@ def check_cont(case):
         obj = path(transform=tf, **kw)
     elif cont == "subpath":
         obj = path(transform=tf, **kw).subpath(0)
+    elif cont == "subpath_open":
+        obj = path(transform=tf, **kw).subpath(1)
     elif cont == "group":
         obj = svg.Group(transform=tf)
         obj.append(rect(transform=tf))
